@@ -358,6 +358,8 @@ def run(ctx):
     nv2 = check_vex2_selection(db, rep, "D11-VEX2-SELECTION")
     if nv2 < 15:
         raise AnalysisBroken("only %d (instruction type, operand shape) cases judged for the VEX form selection" % nv2)
+    from x86enc import check_listing_bytes_paired
+    check_listing_bytes_paired(db, rep, "D13-LISTING-BYTES-PAIRED")
     from vexroles import check_vex_rxb_roles
     nvr = check_vex_rxb_roles(db, rep, "D12-VEX-RXB-ROLES")
     if nvr < 5:
